@@ -229,8 +229,12 @@ def widen(ctx):
     from .rules import widen as wd
     c = _sub()
     n = wd.check(c, ["src/controls.c"])
-    ctx.control("R24.narrow-guard finds the control guards", n == 3, str(n))
-    _expect(ctx, "R24.narrow-guard", c, ["narrow_guard_bad"], ["narrow_guard_good"])
+    ctx.control("R24.narrow-guard finds the control guards", n == 4, str(n))
+    _expect(ctx, "R24.narrow-guard", c, ["narrow_guard_bad", "narrow_guard_local_bad"], ["narrow_guard_good"])
+    c2 = _sub()
+    n2 = wd.check_signext(c2, ["src/controls.c"])
+    ctx.control("R24.sign-extension finds the control assemblies", n2 == 2, str(n2))
+    _expect(ctx, "R24.sign-extension", c2, ["signext_bad"], ["signext_good"])
 
 
 ALL = {"widen": widen, "progress": progress, "lazyinit": lazyinit, "lanes": lanes, "atomic": atomic, "feasible": feasible, "endian": endian, "units": units, "alloc": alloc, "status": status, "ownership": ownership, "cursor": cursor, "arrays": arrays,
